@@ -219,9 +219,11 @@ def run(chk):
         dtn = prng.choice([3, 4])
         n = prng.choice([32, 48])
         cur = prng.choice([["0.001", "0.002"], ["0.001", "0", "0.0005"]])
+        # the grid may be shifted along one axis only: both axes keep the same cell size, the natural size stays 1
+        sh = prng.choice([["--PhaseSpaceShiftX", "2"], ["--PhaseSpaceShiftY", "-2"], ["--PhaseSpaceShiftX", "-3"]])
         a = list(prog.BASE_ARGS) + ["-s", str(n), "-N", str(steps), "-T", str(int(6 * tdp)), "-n", str(steps), "-G", "0",
                                     "-d", repr(tdp / P.sync_freq_default()), "--InitialDistZoom", repr(zoom),
-                                    "--derivation", str(dtn), "-o", "a.h5", "-I"] + cur
+                                    "--derivation", str(dtn)] + sh + ["-o", "a.h5", "-I"] + cur
         d = prog.scratch()
         try:
             r = prog.run_inovesa(exe, a, d)
